@@ -36,6 +36,10 @@ CHECKS = {
    text="All event sequences of the bound over late/boundary inserts on two keys, three clock advances, Flush, Flush×10 (guaranteeing a truncating flush) and Restart, for several retention/resolution ratios; after every event on every distinct state the four clauses of the property are checked against the list of accepted points through native, grouped, relative-range and wider-than-retention queries and the decoded storage (VerifDump).",
    note="'Older' is strict (a point exactly at now - retention is accepted; its period may be dropped by the next flush since it is no longer inside the window, so values of periods ending at or before now - retention are only required to consist of accepted points). Virtual clock restarts at the model's now after Restart.",
    ref="§3 C14"),
+ "C15": dict(cat="model_checking", tech="explicit-state exploration of insert/flush/restart/ApplySchema sequences on the real DB vs a per-field reference model",
+   text="All event sequences of the bound over 4 inserts, Flush, Restart and ApplySchema with 15 layouts (rotations, every deletion, every insertion position of a new field, delete+insert, two WHERE variants; a wide PERCENTILE field included), at most 2 alters per sequence; after every event on every distinct state SELECT *, each single field and a reversed pair must equal a model that tracks per field the points processed while the field was continuously present.",
+   note="Re-added fields are unconstrained (the property does not speak to them). 'Processed before/after the alter' is exact because the driver quiesces before each alter and waits for the row store to take the update.",
+   ref="§3 C15"),
 }
 
 NOT_YET = {}
